@@ -161,6 +161,28 @@ def run(tier):
                         if f['direction'] != 'none' else None}
                 if pred != got:
                     chk.disagree('index', case, str(got), str(pred))
+        # NaN (and consecutive infinities) among the rows written: differences are not uniform -> no SPACING; no
+        # monotonic sense -> no DIRECTION (INDEX-MIN/MAX of data containing NaN are not asserted)
+        nan, inf = float('nan'), float('inf')
+        for vals in ([1.0, nan, 3.0], [1.0, 2.0, nan], [nan, 2.0, 3.0, 4.0], [1.0, 2.0, 3.0, nan, 5.0], [1.0, inf, inf, 4.0],
+                     [nan, nan, nan], [0.0, 1.0, nan, 3.0, 4.0, 5.0], [1.0, inf, 5.0], [0.0, inf, 1.0, 2.0], [3.0, -inf, 1.0],
+                     [1.0, 2.0, inf]):
+            for dtype in ('float64', 'float32'):
+                for window in (None, (1, None)):
+                    df = build_file(vals, dtype)
+                    kw = {} if window is None else {'from_idx': window[0]}
+                    st, err = call(df.write, path, output_chunk_size=2**20, **kw)
+                    written = vals if window is None else vals[window[0]:]
+                    case = {'dtype': dtype, 'index_values': [repr(v) for v in vals], 'from_idx': None if window is None else window[0]}
+                    chk.case('nan', nontrivial_key=('nan', dtype, tuple(map(repr, vals)), window), sample={**case, 'status': st})
+                    if st != 'ok' or not bres.ok:
+                        continue
+                    a = frame_attrs(model, open(path, 'rb').read())
+                    has_nan = any(v != v or v in (inf, -inf) for v in written)
+                    if a is not None and has_nan and len(written) >= 3:
+                        if a.get('SPACING') is not None:
+                            chk.fail('index:spacing-with-nan', case, f'SPACING written as {a["SPACING"]["vals"]} although the '
+                                                                    f'index differences of the rows written are not uniform')
         # user-supplied values are written unchanged
         for _ in range(20 if tier == 'quick' else 200):
             vals = [Fraction(R.randrange(0, 50)) for _ in range(R.choice([1, 3, 4]))]
